@@ -4,12 +4,13 @@ ID=$1; OUT=$2; D=/verif/seeded/$ID
 mkdir -p $D
 cp $OUT/patch.diff $D/
 for f in $OUT/*_test.go; do cp $f $D/; done
+[ -f $OUT/demo_pkg ] && cp $OUT/demo_pkg $D/
 python3 - "$OUT" "$D" "$ID" <<'PY'
 import json,sys,os
 out,d,pid=sys.argv[1:4]
 m=json.load(open(os.path.join(out,'meta.json')))
 v=json.load(open(os.path.join(out,'verify.json'))) if os.path.exists(os.path.join(out,'verify.json')) else {}
-meta={'property':pid,'summary':m.get('summary'),'needs':m.get('needs'),'demo':[f for f in os.listdir(d) if f.endswith('_test.go')],
+meta={'property':pid[:3],'demo_pkg':(open(os.path.join(out,'demo_pkg')).read().strip() if os.path.exists(os.path.join(out,'demo_pkg')) else '.'),'summary':m.get('summary'),'needs':m.get('needs'),'demo':[f for f in os.listdir(d) if f.endswith('_test.go')],
  'demo_placement':'repository root (package centrifuge) unless stated otherwise in the file header',
  'author':'independent sub-agent given only the property text and a scratch worktree',
  'confirmed_by':'scripts/verify_seeded.sh in a fresh scratch worktree: demo passes without the patch, fails with it, the existing suite passes with it (timing-sensitive tests re-run alone)',
